@@ -14,12 +14,9 @@ func init() {
 	register(&Property{
 		ID:    "C13",
 		Level: "other",
-		Explanation: "Structural necessary conditions on stringutil.ContainsFold / SplitTrimmed: (R1) the candidate pre-filter handed to strings.IndexFunc accepts the whole " +
-			"simple-fold orbit of substr's first rune (recognised: a SimpleFold loop that walks the orbit back to its start, or strings.EqualFold on the rune) — a filter that tries a " +
-			"bounded number of SimpleFold steps misses 'K'/'S' matches; the search runs over the whole remaining haystack s[1:] (no width assumption) and every candidate is confirmed " +
-			"by strings.EqualFold on a window of len(substr) bytes; (R2) SplitTrimmed is filter(non-empty, map(TrimSpace, Split(TrimSpace(s), sep))) in iteration order and every returned " +
-			"slice is provably non-nil (provenance of the returned slice). Bounds/termination of both are C01. Not decided: the fold-equality relation itself (unicode tables).",
-		Technique: "SSA shape rules: orbit-completeness of a predicate (loop recognition), dataflow provenance, non-nil slice provenance",
+		Explanation: "Decided exactly by abstract evaluation into BDDs (no execution) on short operands: ContainsFold(s, substr) as a Boolean function of the bits of s (every valid UTF-8 s of up to 6 bytes; 8 thorough) equals 'some window of len(substr) bytes starting at a rune boundary is EqualFold to substr', for every ASCII needle of one byte (two bytes against s of up to 3 bytes), every rune of every fold orbit with more than two members, one rune per other orbit shape, 196 pairs and 8 triples — with IndexFunc, DecodeRuneInString, SimpleFold (the Unicode table as a function of the rune) and EqualFold given their exact meaning; SplitTrimmed(s, sep) returns, on every path, exactly the definition's list of windows (trim, split, trim each, drop empty) for every valid UTF-8 s of up to 5 bytes (7 thorough) and five separators. Structural rules: the returned slice is provably non-nil (provenance), and as fall-back when a function leaves the evaluator's grammar: the pre-filter accepts the whole fold orbit, the search runs over the whole rest, every candidate is confirmed by EqualFold on a window of len(substr) bytes; SplitTrimmed is filter(non-empty, map(TrimSpace, Split(TrimSpace(s), sep))). " +
+			"Bounds/termination of both are C01. Not decided: longer operands, needles of several runes beyond the listed ones, operands that are not valid UTF-8.",
+		Technique: "exact abstract evaluation of go/ssa into ROBDDs with library models (UTF-8 decoding, Unicode fold table, Split/TrimSpace/EqualFold/IndexFunc), compared with the definition as Boolean functions / window lists; SSA provenance rule for non-nil; SSA shape rules as fall-back",
 		Note:      "Trusted: go/ssa, unicode.SimpleFold enumerating the orbit cyclically, strings.EqualFold / IndexFunc / Split / TrimSpace contracts.",
 		DesignRef: "DESIGN.md section 4, C13",
 		Run:       runC13,
